@@ -16,7 +16,7 @@ open Cstruct Cstruct.Sched
 /-- **Footprint.** On the parse/dump path the code writes to exactly one kind of shared location: the token list of an
     `Expression` object, in the unary-minus rewriting loop. No operand stack, queue, cache or counter on a shared object. -/
 theorem c15_footprint : ∀ w ∈ Gen.sharedWrites, w = ("Expression.evaluate", "store self.tokens.[]") := by
-  sorry
+  decide
 
 /-- **The shared rewriting is benign under every interleaving.** Any number of threads, any schedule of their atomic
     actions: the shared token list keeps its length, every cell is at all times either its original or its final
@@ -27,21 +27,21 @@ theorem c15_rewrite_benign (toks0 : List String) (k : Nat) (sched : List Nat) :
     let r := run (List.replicate k Th.init) toks0 sched
     r.2.length = toks0.length ∧
     (∀ i, i < toks0.length → r.2.getD i "" = toks0.getD i "" ∨ r.2.getD i "" = final.getD i "") ∧
-    (∀ t ∈ r.1, t.finished toks0.length = true → t.seen = final) := by
-  sorry
+    (∀ t ∈ r.1, t.finished toks0.length = true → t.seen = final) :=
+  Lemmas.rewrite_benign toks0 k sched
 
 /-- **Running alone gives the sequential result** (the reference the previous theorem compares with), and a thread does
     finish when it is given enough steps. -/
 theorem c15_alone (toks0 : List String) :
-    ∃ n, ∀ m, n ≤ m → ∀ t ∈ (run [Th.init] toks0 (List.replicate m 0)).1, t.finished toks0.length = true ∧ t.seen = Expr.rewriteMinus toks0 := by
-  sorry
+    ∃ n, ∀ m, n ≤ m → ∀ t ∈ (run [Th.init] toks0 (List.replicate m 0)).1, t.finished toks0.length = true ∧ t.seen = Expr.rewriteMinus toks0 :=
+  Lemmas.alone toks0
 
 /-- **Memo tables are transparent** (`_struct`'s and the code templates' `lru_cache`): a table that only ever received
     entries `(k, f k)` answers every lookup with `f k` and stays such a table — cached results never depend on who asked
     first or in which order. -/
 theorem c14_memo_transparent {K V} [DecidableEq K] (f : K → V) (m : List (K × V)) (hm : ∀ p ∈ m, p.2 = f p.1) (k : K) :
-    (memoGet f m k).1 = f k ∧ ∀ p ∈ (memoGet f m k).2, p.2 = f p.1 := by
-  sorry
+    (memoGet f m k).1 = f k ∧ ∀ p ∈ (memoGet f m k).2, p.2 = f p.1 :=
+  Lemmas.memo_transparent f m hm k
 
 /-! ### Non-vacuity: two threads, an adversarial schedule -/
 example : let r := run [Th.init, Th.init] ["-", "a", "-", "-", "b"] [0, 1, 1, 0, 0, 1, 0, 0, 0, 1, 1, 1, 1, 0, 0, 0, 0, 0, 0, 0, 0, 0, 0, 1, 1, 1, 1, 1, 1, 1, 1, 1, 1, 1, 1, 1]
